@@ -241,8 +241,9 @@ def _subst(x, m):
     return x
 
 
-def inline_call(caller_mir, b, callee_mir, callee_generics=None):
-    """Splice callee_mir into caller_mir at the call terminating block b. Mutates caller_mir."""
+def inline_call(caller_mir, b, callee_mir, callee_generics=None, origin=None):
+    """Splice callee_mir into caller_mir at the call terminating block b. Mutates caller_mir. Spliced blocks keep the
+    path of the function they were written in ('inl'), for the rules that ask *where* code lives."""
     t = caller_mir['blocks'][b]['term']
     gargs = t['f'].get('args') or []
     if callee_generics and len(gargs) == len(callee_generics):
@@ -262,6 +263,8 @@ def inline_call(caller_mir, b, callee_mir, callee_generics=None):
     dest = t.get('dest')
     for blk in callee_mir['blocks']:
         nb = {'stmts': [], 'cleanup': blk['cleanup']}
+        if blk.get('inl') or origin:
+            nb['inl'] = blk.get('inl') or origin
         for s in blk['stmts']:
             s2 = dict(s)
             if s['k'] == 'assign':
@@ -344,7 +347,7 @@ def inline_unknown(facts, baseline=None):
                     if t['f'].get('trait') and 'res' not in t['f'] and not _sole_body(facts, t['f']):
                         cdp = None
                     if cdp in unknown and cdp != dp and cdp in fns and len(mir['blocks']) + len(fns[cdp]['mir']['blocks']) < MAX_BLOCKS:
-                        inline_call(mir, b, copy.deepcopy(fns[cdp]['mir']), fns[cdp].get('generics'))
+                        inline_call(mir, b, copy.deepcopy(fns[cdp]['mir']), fns[cdp].get('generics'), origin={'dp': cdp, 'path': fns[cdp]['path']})
                         done.append((dp, cdp))
                         changed = True
                 b += 1
